@@ -1,12 +1,28 @@
 ---------------------------- MODULE MC_Blackboard ----------------------------
-(* Model-checking instances of Blackboard.tla: limit values 0..2 for          *)
-(* max_readers / max_nodes, 2 existing keys + 1 missing key, 2 writer ids,    *)
-(* 3 reader ids, 3 nodes.  The MF_* configurations plant one defect each and  *)
-(* MUST be refuted (vacuity guard of the invariants).                         *)
+(* Model-checking instances of Blackboard.tla.  One TLC run explores several  *)
+(* scenarios; a scenario is a service configuration together with the         *)
+(* universe of program-level ids explored for it (MCUniv):                    *)
+(*   readers : max_readers 0 / 2 (3 for deep), 3 (4) reader ids, 2 writer ids,*)
+(*             one existing and one missing key                               *)
+(*   nodes   : max_nodes 0 / 2 (3), 3 (4) nodes, opener requirements 0 / 2 / 3*)
+(*   values  : one key, updates / loans / discards up to version 2, readers   *)
+(*   handles : two keys, two writer ids, handle exclusivity per key           *)
+(* MF_Blackboard_*.cfg plant one defect each and MUST be refuted (vacuity     *)
+(* guard of the invariants).                                                  *)
 EXTENDS Blackboard
 
 Cfg(nk, r, n) == [nkeys |-> nk, rreq |-> r, nreq |-> n, reff |-> Eff(r), neff |-> Eff(n)]
-CfgQuick == {Cfg(2, r, n) : r \in 0..2, n \in 0..2}
-CfgSmall == {Cfg(1, 1, 2), Cfg(2, 2, 1)}
-CfgDeep == {Cfg(2, r, n) : r \in {0, 3, 4}, n \in {2, 4}}
+U(W, R, N, K, Q, m) == [W |-> W, R |-> R, N |-> N, K |-> K, Q |-> Q, maxv |-> m]
+
+CfgQuick == {Cfg(1, 0, 1), Cfg(1, 2, 1), Cfg(1, 1, 0), Cfg(1, 1, 2), Cfg(1, 1, 1), Cfg(2, 1, 1)}
+CfgDeep == CfgQuick \cup {Cfg(1, 3, 1), Cfg(1, 4, 1), Cfg(1, 1, 3), Cfg(1, 1, 4), Cfg(1, 2, 2)}
+CfgFault == {Cfg(1, 1, 2)}
+
+MCUniv(c) ==
+    IF c = Cfg(1, 1, 1) THEN U({1, 2}, {1}, {1}, {1}, {0}, 2)                         \* values
+    ELSE IF c = Cfg(2, 1, 1) THEN U({1, 2}, {}, {1}, {1, 2}, {0}, 1)                  \* handles
+    ELSE IF c = Cfg(1, 2, 2) THEN U({1}, {1, 2, 3}, {1, 2, 3}, {1}, {0}, 0)           \* readers x nodes
+    ELSE IF c.nreq = 1 THEN U({1, 2}, 1..(Eff(c.rreq) + 1), {1}, {1, 2}, {0}, 0)      \* readers
+    ELSE U({1}, {1}, 1..(Eff(c.nreq) + 1), {1}, {0, Eff(c.nreq), Eff(c.nreq) + 1}, 0) \* nodes
+FaultUniv(c) == U({1, 2}, {1, 2}, {1, 2}, {1}, {0}, 2)
 =============================================================================
